@@ -329,6 +329,9 @@ def oracle(case, recs, cl):
                 fails.append("C15: %s: %d read calls after a produce request with acks = 0" % (tag, s.nreads))
             if st == "beyond":
                 fails.append("C15: %s: %d bytes read for one request, the reply frame has %d" % (tag, len(s.reads), 4 + size))
+            if s.complete and s.reply_due and s.nreads == 0 and not s.failed and s.faults == 0 and s.rq is not None:
+                fails.append("C15: %s: the %s request to %r was accepted completely and nothing failed on that connection, "
+                             "but its reply was never read (it stays queued for the next call)" % (tag, s.rq["api"], s.host))
             if not s.complete and not s.failed and s.nreads:
                 fails.append("C15: %s: reply awaited although only %d of %d request bytes were accepted" % (tag, s.accepted, len(s.frame)))
         if res.name == "ok":
@@ -377,7 +380,7 @@ def oracle(case, recs, cl):
                 fails.append("C15: %s: every request was accepted and every reply read completely and without fault, yet the call failed: %s" %
                              (tag, dumps(res)[:80]))
         for s in sends:
-            if s.read_fault or s.failed or (not s.complete) or (s.reply_due and reply_state(s)[0] != "whole"):
+            if s.read_fault or s.failed or (not s.complete) or (s.reply_due and s.nreads and reply_state(s)[0] != "whole"):
                 tainted.add(s.host)
         if fails:
             break        # the client's state after a violation (e.g. metadata taken from a foreign reply) is no basis for judging later calls
